@@ -14,6 +14,7 @@ type packetDecoder interface {
 	getArrayLength() (int, error)         // a null array reads as empty
 	getNullableArrayLength() (int, error) // -1 for a null array
 	getCompactArrayLength() (int, error)
+	getCompactNullableArrayLength() (int, error) // -1 for a null array
 	getBool() (bool, error)
 	getEmptyTaggedFieldArray() (int, error)
 
